@@ -434,9 +434,10 @@ def main():
         # C03s: the statically typed tiers are separate binaries of the same source (compile time): e0_snds = REF tier
         # (-DSND_REF), e0_sndp = pure catalogue (-DSND_PURE), each plain and with ASan.  The slow ones go first.
         ASAN = '-O1 -g -fsanitize=address -fno-omit-frame-pointer'
-        # (-O0 and no debug info for the static ASan builds: 25 % less compile time, nothing is optimised away)
+        # (-O0 and no debug info for the static ASan builds: 25 % less compile time, nothing is optimised away; the ASan
+        # build of the REF tier has adaptor depth 2 instead of 3 - deeper sub-terms are erased once more often)
         ASAN0 = '-O0 -fsanitize=address -fno-omit-frame-pointer'
-        todo = [('e0_sndp_asan', 'e0/snd.cpp', ASAN0 + ' -DSND_PURE -DSND_PURE_SMALL'), ('e0_snds_asan', 'e0/snd.cpp', ASAN0 + ' -DSND_REF'),
+        todo = [('e0_sndp_asan', 'e0/snd.cpp', ASAN0 + ' -DSND_PURE -DSND_PURE_SMALL'), ('e0_snds_asan', 'e0/snd.cpp', ASAN0 + ' -DSND_REF -DSND_STATIC_DEPTH=2'),
                 ('e0_sndp', 'e0/snd.cpp', '-O1 -DSND_PURE'), ('e0_snds', 'e0/snd.cpp', '-O1 -DSND_REF'),
                 ('e0_snd_asan', 'e0/snd.cpp', ASAN), ('e0_snd', 'e0/snd.cpp', '-O1'), ('e1_split', 'e1/split.cpp', '-O1')]
         todo = [t for t in todo if os.path.exists(os.path.join(HERE, 'harness', t[1]))]
